@@ -46,6 +46,12 @@ def events(c):
     for t in tracks(c):
         out += list(t.note_events) + list(t.star_power_events) + list(t.track_events)
     return out
+def event_lists(c):
+    s, g = c.sync_track, c.global_events_track
+    out = [s.time_signature_events, s.anchor_events, g.text_events, g.section_events, g.lyric_events]
+    for t in tracks(c):
+        out += [t.note_events, t.star_power_events, t.track_events]
+    return out
 def containers(c):
     return tracks(c) + [c.sync_track, c.global_events_track]
 def public_names(o):
@@ -102,6 +108,14 @@ OPS.update(
         "tat_hint_beyond": "c.sync_track.bpm_events.timestamp_at_tick(0, start_iteration_index=1)",
         "tat_no_optimize": "c.sync_track.bpm_events.timestamp_at_tick_no_optimize_return(12)",
         "bpm_seq_reads": "(len(c.sync_track.bpm_events), c.sync_track.bpm_events[0], c.sync_track.bpm_events[0:2], list(c.sync_track.bpm_events))",
+        # the whole Sequence / Mapping protocol of the chart's containers (mixin methods included)
+        "bpm_seq_reversed": "list(reversed(c.sync_track.bpm_events))",
+        "bpm_seq_reversed_first": "next(reversed(c.sync_track.bpm_events))",
+        "bpm_seq_search": "(c.sync_track.bpm_events[-1] in c.sync_track.bpm_events, c.sync_track.bpm_events.index(c.sync_track.bpm_events[-1]), c.sync_track.bpm_events.count(c.sync_track.bpm_events[0]), 5 in c.sync_track.bpm_events)",
+        "bpm_seq_slices": "(c.sync_track.bpm_events[::-1], c.sync_track.bpm_events[-1], c.sync_track.bpm_events[1:], sorted(c.sync_track.bpm_events, key=lambda e: -e.tick), max(c.sync_track.bpm_events, key=lambda e: e.bpm))",
+        "bpm_seq_out_of_range": "c.sync_track.bpm_events[99]",
+        "list_protocol_reads": "[(list(reversed(l)), l[::-1], l[:1], sorted(l, key=lambda e: -e.tick), len(l), (l[0] in l) if l else None) for l in event_lists(c)]",
+        "map_protocol_reads": "(len(c.instrument_tracks), list(c.instrument_tracks.items()), list(c.instrument_tracks.values()), dict(c.instrument_tracks), [dict(dd) for dd in c.instrument_tracks.values()], [list(reversed(dd)) for dd in c.instrument_tracks.values()])",
         "str_chart": "str(c)",
         "repr_chart": "repr(c)",
         "str_parts": "[str(x) for x in (c.metadata, c.sync_track, c.global_events_track)] + [str(t) for t in tracks(c)]",
